@@ -131,10 +131,16 @@ def _compute_degree_iterative(expr: Expression) -> Optional[int]:
             result_stack.append(_vector_elements_degree(node.vector))
             continue
         if isinstance(node, DotProduct):
-            result_stack.append(2)
+            result_stack.append(
+                _product_degree(
+                    _vector_elements_degree(node.left),
+                    _vector_elements_degree(node.right),
+                )
+            )
             continue
         if isinstance(node, QuadraticForm):
-            result_stack.append(2)
+            elem_deg = _vector_elements_degree(node.vector)
+            result_stack.append(_product_degree(elem_deg, elem_deg))
             continue
         if isinstance(node, VectorPowerSum):
             # sum(x ** k) has degree k
@@ -253,6 +259,16 @@ def _vector_elements_degree(vector: Any) -> Optional[int]:
     return max_deg
 
 
+def _product_degree(left_deg: Optional[int], right_deg: Optional[int]) -> Optional[int]:
+    """Degree bound of a sum of element products (never below quadratic).
+
+    Returns None if either operand has a non-polynomial element.
+    """
+    if left_deg is None or right_deg is None:
+        return None
+    return max(2, left_deg + right_deg)
+
+
 @lru_cache(maxsize=1024)
 def _compute_degree_cached(expr_id: int, expr: Expression) -> Optional[int]:
     """Memoized degree computation keyed by expression object id."""
@@ -307,12 +323,14 @@ def _compute_degree_impl(expr: Expression) -> Optional[int]:
             return max_deg
         return 1  # Default for unknown vector types
     if isinstance(expr, DotProduct):
-        # x · y could be quadratic if both are variables
-        # For now, return 2 (quadratic) as worst case
-        return 2
+        # x · y is quadratic for variables; elements may raise the degree
+        return _product_degree(
+            _vector_elements_degree(expr.left), _vector_elements_degree(expr.right)
+        )
     if isinstance(expr, QuadraticForm):
-        # xᵀAx is always quadratic
-        return 2
+        # xᵀAx is quadratic in the elements of x
+        elem_deg = _vector_elements_degree(expr.vector)
+        return _product_degree(elem_deg, elem_deg)
     if isinstance(expr, VectorPowerSum):
         # sum(x ** k) has degree k
         return int(expr.power)
